@@ -1,4 +1,5 @@
 import LyModel.Diff.K13MergeTree
+import LyModel.Diff.LemmasKeyCopy
 import LyModel.Props.C13
 /-!
 # C13 — the composition law at TREE level: `apply (merge (diff A B) (diff B C)) A = C`
@@ -28,7 +29,10 @@ What the hypothesis excludes, and what stays outside the law:
   subtree keep inheriting `create` (Diff/K13MergeTree.lean: `merge_matched_inner_nd`, `_cd`, `_cn`, `_dc`);
 * `mergeSafe` also asks that the key copies in front of a target node belong to earlier schema nodes than the children of the source
   node and, for `delete` + `create`, that the key leaves of the two copies agree in their default flags: true of every diff
-  computed from data libyang builds (keys are never default nodes) — for arbitrary `wfForest` trees it is part of the hypothesis;
+  computed from well-formed trees (`wfForest`: the keys of a list instance are its first children, leaves without the default
+  flag) — `keyCopyL_diff`, `mergeSafe_of_computed` (Diff/LemmasKeyCopy.lean) DERIVE these conditions for computed diffs, so
+  `merge_apply_partial_tree_computed` below asks only for `mergeSafe0` (the meeting cells + the F18(c) exclusion); the core
+  theorem `K13.merge_apply_exact` about ARBITRARY exact diffs keeps them as part of its hypothesis `mergeSafe`;
 * user-ordered lists are outside (`lyd_diff_is_redundant` documents their merge as lossy).
 -/
 set_option linter.unusedSimpArgs false
@@ -89,6 +93,17 @@ theorem merge_apply_partial_tree {S : Schema} (hS : K13.schemaOK S = true) (o : 
   · simp [mergeApply, hm, Except.bind, applyD, ha]
   · rw [dataEqL_iff_norm, hn, l3, ← k3, g3]
 
+/-- **merge_apply_partial at tree level, for the diffs libyang computes**: the side condition is `mergeSafe0` — which cells the two
+diffs meet in (`meetOps`) and the one excluded leaf cell (`none` + `replace` with a default-flagged value, F18(c)); what `mergeSafe`
+asks of the key copies is derived (`mergeSafe_of_computed`) -/
+theorem merge_apply_partial_tree_computed {S : Schema} (hS : K13.schemaOK S = true) (o : MergeOpts)
+    (hq : o.defaults = true → Generated.Diff13.mergeDfltNeedsDeletedDflt = true) (fx : Fixes) (A B C : List DNode)
+    (hA : wfForest S A = true) (hB : wfForest S B = true) (hC : wfForest S C = true) (hcA : K13.canonT S A = true)
+    (hcB : K13.canonT S B = true) (hcC : K13.canonT S C = true)
+    (hsafe : mergeSafe0 S (diff S true A B) (diff S true B C) = true) :
+    ∃ C', mergeApply S true o A B C fx = .ok C' ∧ dataEqL true C' C = true :=
+  merge_apply_partial_tree hS o hq fx A B C hA hB hC hcA hcB hcC (mergeSafe_of_computed S A B C hA hB hC hsafe)
+
 /-! ### non-vacuity: a keyed list with nested content — the SAME instance `l[1]` is changed in both steps (`v`: d → e → f, the
 leaf-list `ll`), `l[2]` deleted and `l[3]` created by the first diff, `top` deleted by the first and created again by the second -/
 
@@ -101,6 +116,14 @@ example : wfForest mcS mtC = true ∧ K13.canonT mcS mtC = true ∧ (diff mcS tr
 example : ∃ C', mergeApply mcS true {} mcA mcB mtC = .ok C' ∧ dataEqL true C' mtC = true :=
   merge_apply_partial_tree (by decide +kernel) {} (fun h => by cases h) {} mcA mcB mtC (by decide +kernel) (by decide +kernel)
     (by decide +kernel) (by decide +kernel) (by decide +kernel) (by decide +kernel) (by decide +kernel)
+
+example : mergeSafe0 mcS (diff mcS true mcA mcB) (diff mcS true mcB mtC) = true := by decide +kernel
+example : ∃ C', mergeApply mcS true {} mcA mcB mtC = .ok C' ∧ dataEqL true C' mtC = true :=
+  merge_apply_partial_tree_computed (by decide +kernel) {} (fun h => by cases h) {} mcA mcB mtC (by decide +kernel) (by decide +kernel)
+    (by decide +kernel) (by decide +kernel) (by decide +kernel) (by decide +kernel) (by decide +kernel)
+/-- the derived conditions are not empty: the key copies of the computed diff of the example -/
+example : keyCopyL mcS (diff mcS true mcA mcB) := keyCopyL_diff mcS mcA mcB (by decide +kernel) (by decide +kernel)
+example : ((diff mcS true mcA mcB).map fun n => (keysOf mcS n.kids).length) = [1, 1, 1, 0] := by decide +kernel
 
 /-- … and with `LYD_DIFF_MERGE_DEFAULTS`, given the repaired condition of `lyd_diff_merge_create` -/
 example (hq : Generated.Diff13.mergeDfltNeedsDeletedDflt = true) :
